@@ -192,7 +192,7 @@ def presB (Lx Ly Lz : Nat) (a x y z : Int) : Bool :=
     axis 3 or of axis 2 is not listed; of axis 0 those of the last column `x = 2Lx−2`, the upper one
     (`(x+y+z) % 4 = 2`, `z ≥ 2`) of the two that share a z edge, the lower one where the upper one is
     not listed, and the lower ones `(0, 2, 2, z)`, `z % 4 = 0`, `8 ≤ z ≤ 2Lz−6` along the edge
-    `x = y = 3` of a hole with `Lx, Ly ≥ 4` -/
+    `x = y = 3` of a hole with `Lx, Ly ≥ 4` or `Lx = 3`, `Ly ≥ 5` -/
 def selTri (Lx Ly Lz : Nat) : Coord → Bool
   | [a, x, y, z] =>
     if a = 3 ∨ a = 2 then true
@@ -203,7 +203,8 @@ def selTri (Lx Ly Lz : Nat) : Coord → Bool
       (decide ((x + y + z) % 4 = 0) && decide (z < 2 * (Lz : Int) - 2) &&
         !presB Lx Ly Lz 0 x y (z + 2)) ||
       (decide (x = 2) && decide (y = 2) && decide (z % 4 = 0) && decide (8 ≤ z) &&
-        decide (z ≤ 2 * (Lz : Int) - 6) && decide (4 ≤ Lx) && decide (4 ≤ Ly))
+        decide (z ≤ 2 * (Lz : Int) - 6) &&
+        ((decide (4 ≤ Lx) && decide (4 ≤ Ly)) || (decide (Lx = 3) && decide (5 ≤ Ly))))
   | _ => false
 
 /-- the family of the rank clause: all cubes and the selected triangles -/
